@@ -778,14 +778,19 @@ def gen_ops(rng, n_ops):
             ci = rng.randrange(len(shapes[i]))
             ops.append(['add_file', i, ci, some_attrs(ATTRS_FILE, rng.choice([0, 0, 1]))])
             shapes[i][ci] += 1
+        elif r < 0.46:
+            # reset a content attribute to its empty value (a default-like value that must not become shared state)
+            p, names = pick_path(i)
+            a = rng.choice([n for n in names if n in ('meta', 'preamble', 'diff')])
+            ops.append(['set', i, p, a, {'meta': {'d': {}}, 'preamble': {'s': ''}, 'diff': {'b': ''}}[a]])
         elif r < 0.6:
             p, names = pick_path(i)
             ops.append(['set', i, p, rng.choice(names + ['bogus']), rng.choice(CANDIDATES)])
-        elif r < 0.7:
+        elif r < 0.72:
             p, names = pick_path(i)
             key = rng.choice(['k', 'stats', 'x'])
             ops.append(['meta_put', i, p, key, {'n': 1, 'insertions': 2} if key == 'stats' else rng.choice([1, True, 'v', [1], {'n': 1}, None])])
-        elif r < 0.76:
+        elif r < 0.78:
             p, names = pick_path(i)
             sel = rng.choice(['self', 'meta'] + (['pre'] if p == 'main' or p[0] == 'c' else ['diff']))
             ops.append(['opt_put', i, p, sel, rng.choice(['encoding', 'custom', 'indent']), rng.choice([{'s': 'utf-8'}, {'i': 3}, {'s': 'x'}])])
